@@ -17,7 +17,7 @@ from vf.core import Ctx, Recorder
 BS = 64
 SIZES = [0, 1, BS - 1, BS, BS + 1, 5 * BS]
 NO_BODY_METHODS = {"GET", "HEAD", "DELETE", "TRACE", "OPTIONS", "CONNECT"}
-KINDS = ["none", "bytes", "bytearray", "memoryview", "array", "array-H", "memoryview-I", "str", "str-nonascii", "bytesio", "stringio", "binfile", "binfile-offset", "binfile-eof", "textfile", "readonly", "tell-raises", "unseekable", "generator", "list", "list-empties", "iter-str", "tuple-bytes", "shortreads", "shortreads-raw"]
+KINDS = ["textfile-readline", "textfile-next", "textfile-read3", "textfile-readline-big", "none", "bytes", "bytearray", "memoryview", "array", "array-H", "memoryview-I", "str", "str-nonascii", "bytesio", "stringio", "binfile", "binfile-offset", "binfile-eof", "textfile", "readonly", "tell-raises", "unseekable", "generator", "list", "list-empties", "iter-str", "tuple-bytes", "shortreads", "shortreads-raw"]
 ONE_SHOT = {"generator", "readonly"}
 METHODS = ["GET", "HEAD", "DELETE", "OPTIONS", "POST", "PUT", "PATCH", "QUERY"]
 HISTORIES = ["ok", "reset-ok", "eof-ok", "503-ok", "307-ok", "308-ok", "301-ok", "303-ok", "503-307-ok", "sendreset0-ok", "sendreset1-ok", "503-503-ok", "307-307-ok"]
@@ -127,6 +127,25 @@ def make_body(kind: str, size: int, tmpdir: str) -> tuple[typing.Any, bytes, typ
     if kind == "stringio":
         t = content(size, text=True)
         return io.StringIO(t.decode("utf-8")), t, noop
+    if kind in ("textfile-readline", "textfile-next", "textfile-read3", "textfile-readline-big"):
+        # a text-mode file from which the caller has already consumed something through the text layer (a CSV header, a
+        # few characters): the text layer has read ahead, so the position of the underlying buffer is not the body's position
+        t = content(size, text=True)
+        if kind.endswith("-big"):
+            t = t + ("\n" + "row-\u00e9-0123456789" * 3).encode("utf-8") * 700  # several read-ahead chunks
+        head = b"" if kind == "textfile-read3" else "header-line;\u00fc\n".encode("utf-8")
+        path = os.path.join(tmpdir, f"b{kind}{size}")
+        with open(path, "wb") as fh:
+            fh.write(head + t)
+        f = open(path, "r", encoding="utf-8", newline="")
+        if kind == "textfile-next":
+            next(f)  # tell() is disabled after next(): the body can be sent once, not again
+        elif kind == "textfile-read3":
+            skipped = f.read(3)
+            t = t[len(skipped.encode("utf-8")) :]
+        else:
+            f.readline()
+        return f, t, f.close
     if kind in ("binfile", "binfile-offset", "binfile-eof", "textfile"):
         path = os.path.join(tmpdir, f"b{kind}{size}")
         if kind == "textfile":
@@ -310,7 +329,7 @@ def run_case(rec: Recorder, kind: str, size: int, method: str, chunked: bool, hi
             # nothing was sent yet, so nothing had to be sent again: a body that cannot be rewound can still be sent once
             rec.fail(case, "unrewindable-before-first-attempt", obs, f"UnrewindableBodyError before any request was written (body kind {kind})")
             return
-        if kind in ("bytes", "bytearray", "memoryview", "array", "array-H", "memoryview-I", "str", "str-nonascii", "bytesio", "stringio", "binfile", "binfile-offset", "binfile-eof", "textfile", "list", "list-empties", "iter-str", "tuple-bytes", "none", "shortreads", "shortreads-raw"):
+        if kind in ("bytes", "bytearray", "memoryview", "array", "array-H", "memoryview-I", "str", "str-nonascii", "bytesio", "stringio", "binfile", "binfile-offset", "binfile-eof", "textfile", "textfile-readline", "textfile-read3", "textfile-readline-big", "list", "list-empties", "iter-str", "tuple-bytes", "none", "shortreads", "shortreads-raw"):
             rec.fail(case, "unrewindable-for-rewindable-body", obs, f"UnrewindableBodyError for body kind {kind}")
 
 
@@ -332,11 +351,22 @@ def run_tls_uploads(ctx: Ctx, rec: Recorder) -> None:
             ("bytes", lambda: raw), ("bytearray", lambda: bytearray(raw)), ("memoryview", lambda: memoryview(raw)), ("array-H", lambda: array.array("H", raw)),
             ("memoryview-I", lambda: memoryview(raw).cast("I")), ("bytesio", lambda: io.BytesIO(raw)), ("iter", lambda: iter([raw[:30000], raw[30000:]])),
         ]
-        for route in ("direct", "http-tunnel", "https-tunnel"):
+        for route in ("direct", "http-tunnel", "https-tunnel", "direct+pyopenssl", "http-tunnel+pyopenssl"):
+            backend = None
+            if route.endswith("+pyopenssl"):
+                # the other supported TLS backend has a sendall() of its own
+                route = route[: -len("+pyopenssl")]
+                try:
+                    import urllib3.contrib.pyopenssl as backend  # type: ignore[no-redef]
+
+                    backend.inject_into_urllib3()
+                except Exception:  # noqa: BLE001
+                    rec.count("pyopenssl_not_available")
+                    continue
             for kind, mk in bodies:
                 for chunked in (False, True):
-                    case = {"tls_upload": route, "kind": kind, "chunked": chunked, "size": n}
-                    rec.case(["tls-upload", route, kind, chunked])
+                    case = {"tls_upload": route, "kind": kind, "chunked": chunked, "size": n, "backend": "pyopenssl" if backend else "ssl"}
+                    rec.case(["tls-upload", route, kind, chunked, bool(backend)])
                     rec.mon("tls_upload")
                     cfg = {"role": "origin", "tls": ("exact", "trusted")} if route == "direct" else {"role": "proxy", "tls": ("proxy", "trusted") if route == "https-tunnel" else None, "inner": ("exact", "trusted")}
                     with tlsnet.TLSNet(lambda i: cfg, certs) as net, warnings.catch_warnings():
@@ -360,9 +390,114 @@ def run_tls_uploads(ctx: Ctx, rec: Recorder) -> None:
                         rec.fail(case, "request-not-parseable", {"route": route, "kind": kind, "status": status, "requests": len(reqs), "why": (reqs[0].get("error") if reqs else None)}, f"origin saw {len(reqs)} requests, status {status}")
                         continue
                     if reqs[0]["body_len"] != n or reqs[0]["body_sha256"] != hashlib.sha256(raw).hexdigest():
-                        rec.fail(case, "payload-differs", {"route": route, "kind": kind, "got_len": reqs[0]["body_len"], "want_len": n, "chunked": chunked}, f"the origin decrypted {reqs[0]['body_len']} body bytes (want {n}) or different content")
+                        rec.fail(case, "payload-differs", {"route": route, "kind": kind, "got_len": reqs[0]["body_len"], "want_len": n, "chunked": chunked, "backend": "pyopenssl" if backend else "ssl"}, f"the origin decrypted {reqs[0]['body_len']} body bytes (want {n}) or different content")
+            if backend is not None:
+                backend.extract_from_urllib3()
     finally:
         certs.close()
+        try:
+            import urllib3.contrib.pyopenssl as _pyo
+
+            _pyo.extract_from_urllib3()
+        except Exception:  # noqa: BLE001
+            pass
+
+
+class _Ok:
+    def on_request(self, net: typing.Any, sc: typing.Any, req: wire.Request) -> None:
+        sc.write(wire.build_response(200, body=b"ok"))
+
+
+SHARED_SEQ = [("POST", "bytes", 3), ("POST", "bytes", 10), ("GET", "none", 0), ("PUT", "bytesio", 6), ("POST", "generator", 5), ("POST", "str", 4), ("DELETE", "none", 0), ("POST", "bytes", 3), ("POST", "binfile", 70)]
+
+
+def run_shared_headers(rec: Recorder, tmpdir: str) -> None:
+    """Several uploads on ONE connection / pool / manager / CONNECT tunnel that share ONE header object (a dict or an
+    HTTPHeaderDict; given per request or as the client's defaults) and never name a framing header: every request on the
+    wire is framed for its own body - whatever the requests before it carried."""
+    import warnings
+
+    import urllib3
+    from urllib3._collections import HTTPHeaderDict
+    from urllib3.connection import HTTPConnection
+
+    for via in ("conn", "pool", "manager", "tunnel"):
+        for container in ("dict", "HTTPHeaderDict"):
+            for where in ("per-request", "defaults"):
+                if via == "conn" and where == "defaults":
+                    continue
+                for rot in range(len(SHARED_SEQ)):
+                    seq = SHARED_SEQ[rot:] + SHARED_SEQ[:rot]
+                    case = {"shared_headers": via, "container": container, "where": where, "sequence": [list(x) for x in seq]}
+                    rec.case(["shared-headers", via, container, where, rot])
+                    rec.mon("shared_header_sequence")
+                    base = [("X-Api", "k1")]
+                    hdrs: typing.Any = dict(base) if container == "dict" else HTTPHeaderDict(base)
+                    wants: list[bytes] = []
+                    cleanups = []
+                    exc: BaseException | None = None
+                    with netsim.Net(_Ok(), fake_tls="inner" if via == "tunnel" else True) as net, warnings.catch_warnings():
+                        warnings.simplefilter("ignore")
+                        kw = {"headers": hdrs} if where == "defaults" else {}
+                        per = {"headers": hdrs} if where == "per-request" else {}
+                        cl: typing.Any
+                        if via == "conn":
+                            cl = HTTPConnection("b.test", 80, blocksize=BS)
+                        elif via == "pool":
+                            cl = urllib3.HTTPConnectionPool("b.test", 80, maxsize=1, retries=False, blocksize=BS, **kw)
+                        elif via == "manager":
+                            cl = urllib3.PoolManager(retries=False, blocksize=BS, **kw)
+                        else:
+                            cl = urllib3.ProxyManager("http://proxy.test:3128", retries=False, blocksize=BS, cert_reqs="CERT_NONE", **kw)
+                        try:
+                            for method, kind, size in seq:
+                                body, want, cleanup = make_body(kind, size, tmpdir)
+                                wants.append(want)
+                                cleanups.append(cleanup)
+                                if via == "conn":
+                                    cl.request(method, "/u", body=body, **per)
+                                    cl.getresponse().read()
+                                elif via == "pool":
+                                    cl.urlopen(method, "/u", body=body, retries=False, **per)
+                                else:
+                                    cl.urlopen(method, ("https" if via == "tunnel" else "http") + "://b.test/u", body=body, retries=False, **per)
+                        except Exception as e:  # noqa: BLE001
+                            exc = e
+                        finally:
+                            for c in cleanups:
+                                c()
+                            cl.clear() if hasattr(cl, "clear") else cl.close()
+                        raw = [bytes(st.sent) for st in net.states if st.sent]
+                    if exc is not None:
+                        rec.fail(case, "non-urllib3-exception" if not isinstance(exc, urllib3.exceptions.HTTPError) else "unexpected-urllib3-exception", {"exc": type(exc).__name__, "via": via, "sequence": True, "msg": str(exc)[:100]}, f"{type(exc).__name__}: {exc!s:.160}")
+                        continue
+                    reqs: list[wire.Request] = []
+                    bad = None
+                    for b in raw:
+                        got, residue, perr = wire.parse_all_requests(b)
+                        reqs += [r for r in got if r.method != b"CONNECT"]
+                        if perr is not None or residue:
+                            bad = perr or f"residue {residue[:60]!r}"
+                    if bad or len(reqs) != len(seq):
+                        rec.fail(case, "request-not-parseable", {"via": via, "container": container, "where": where, "why": str(bad)[:80], "parsed": len(reqs), "sent": len(seq)}, f"{len(seq)} calls put {len(reqs)} parseable requests on the wire ({bad})")
+                        continue
+                    for i, ((method, kind, size), want, r) in enumerate(zip(seq, wants, reqs)):
+                        rec.mon("framing")
+                        clh = wire.header_get(r.headers, b"content-length")
+                        te = wire.header_get(r.headers, b"transfer-encoding")
+                        obs = {"via": via, "container": container, "where": where, "step": i, "kind": kind, "method": method, "cl": clh, "te": te, "before": [x[1] for x in seq[:i]]}
+                        if kind == "none":
+                            if (method in NO_BODY_METHODS and (clh or te)) or (method not in NO_BODY_METHODS and (clh != [b"0"] or te)) or r.body:
+                                rec.fail(case, "bodyless-framing", obs, f"call {i} ({method}, no body) after {obs['before']} carries CL={clh} TE={te} body={r.body[:20]!r}")
+                                break
+                        elif bool(clh) == bool(te) or len(clh) > 1 or len(te) > 1:
+                            rec.fail(case, "not-exactly-one-framing", obs, f"call {i} ({kind}) after {obs['before']}: CL={clh} TE={te}")
+                            break
+                        elif r.body != want:
+                            rec.fail(case, "payload-differs", dict(obs, got=len(r.body), want=len(want), attempt=1), f"call {i} ({kind}) after {obs['before']} carried {len(r.body)} bytes, body has {len(want)}")
+                            break
+                    if sorted((str(k), str(v)) for k, v in (hdrs.items())) != sorted(base):
+                        rec.fail(case, "caller-headers-mutated", {"via": via, "container": container, "where": where, "now": sorted((str(k), str(v)) for k, v in hdrs.items())[:6]}, f"the caller's header object now holds {list(hdrs.items())!r}")
 
 
 def run_shard(ctx: Ctx, rec: Recorder) -> None:
@@ -370,6 +505,8 @@ def run_shard(ctx: Ctx, rec: Recorder) -> None:
         run_tls_uploads(ctx, rec)
     tmpdir = tempfile.mkdtemp(prefix="vf-c11-")
     try:
+        if ctx.shard == 0:
+            run_shared_headers(rec, tmpdir)
         idx = 0
         stride = ctx.pick(2, 1)
         for kind in KINDS:
